@@ -126,11 +126,13 @@ class SAwait:
     result: value (or zero-arg callable evaluated on resume) delivered by the await
     raises: exception instances/classes that the await may raise (forked)"""
 
-    def __init__(self, result=None, raises=(), name="await", on_resume=None):
+    def __init__(self, result=None, raises=(), name="await", on_resume=None, on_raise=None, on_suspend=None):
         self.result = result
         self.raises = tuple(raises)
         self.name = name
         self.on_resume = on_resume
+        self.on_raise = on_raise  # called with the exception about to be thrown into the coroutine
+        self.on_suspend = on_suspend  # called when the coroutine suspends here (before the outcome is chosen)
 
     def __await__(self):  # pragma: no cover - only reached through __vc.suspend
         raise Unsupported("SAwait awaited outside instrumented code")
